@@ -381,6 +381,14 @@ MUTATIONS += [
     dict(id="C05-list-missing-marked-pack-is-warning", prop="C05", file=CK, old="    for (id, (size, to_delete)) in packs {\n        collector.add_error(CheckError::NoPack {\n            id: *id,\n            to_delete: *to_delete,\n            size: *size,\n        });\n    }", new="    for (id, (size, to_delete)) in packs {\n        let err = CheckError::NoPack {\n            id: *id,\n            to_delete: *to_delete,\n            size: *size,\n        };\n        if *to_delete {\n            collector.add_warn(err);\n        } else {\n            collector.add_error(err);\n        }\n    }"),
 ]
 
+# ---- C03 merge ordering
+MRG = "crates/core/src/commands/merge.rs"
+MUTATIONS += [
+    dict(id="C03-merge-index-before-packer", prop="C03", file=MRG, old="    let stats = packer.finalize()?;\n    indexer.write().unwrap().finalize()?;\n", new="    indexer.write().unwrap().finalize()?;\n    let stats = packer.finalize()?;\n"),
+    dict(id="C03-merge-index-never-finalized", prop="C03", file=MRG, old="    let stats = packer.finalize()?;\n    indexer.write().unwrap().finalize()?;\n", new="    let stats = packer.finalize()?;\n"),
+    dict(id="C03-merge-snapshot-saved-first", prop="C03", file=MRG, old="    snap.tree = merge_trees(repo, &trees, cmp, &mut summary)?;\n", new="    snap.id = repo.dbe().save_file(&snap)?.into();\n    snap.tree = merge_trees(repo, &trees, cmp, &mut summary)?;\n"),
+]
+
 HARMLESS = [
     dict(id="H-C05-trees-symlink-continue", prop="C05", file=CK, old="        for node in tree.nodes {\n            match node.node_type {", new="        for node in tree.nodes {\n            if node.node_type == NodeType::Symlink {\n                continue;\n            }\n            match node.node_type {"),
     # independent statements reordered
